@@ -15,12 +15,14 @@ type Scenario struct {
 	// MaxBound, if not zero, caps the preemption bound for this scenario (wide
 	// scenarios are explored with fewer preemptions).
 	MaxBound int
+	// ThoroughOnly scenarios are left out of the quick tier; they come last in
+	// the list so that job indexes of the quick tier are a prefix.
+	ThoroughOnly bool
 }
 
 var c14ListA = ListSpec{ID: 1, Text: "! list A\n" +
 	"||example.org^\n" +
 	"||example.org/ads\n" +
-	"||ads.example.com^\n" +
 	"/ex[a-z]+le\\.net/\n" +
 	"/ad$domain=example.org\n" +
 	"@@||example.org^$generichide\n" +
@@ -28,7 +30,10 @@ var c14ListA = ListSpec{ID: 1, Text: "! list A\n" +
 	"##.g1\n" +
 	"example.org##.s1\n" +
 	"example.org#@#.g2\n" +
-	"##.g2\n"}
+	"##.g2\n" +
+	// the last line has no line terminator (the reader's end-of-file path) and is
+	// retrieved through its index by the ads.example.com queries
+	"||ads.example.com^"}
 
 var c14ListB = ListSpec{ID: 2, Text: "# list B\n" +
 	"0.0.0.0 example.org\n" +
@@ -36,11 +41,11 @@ var c14ListB = ListSpec{ID: 2, Text: "# list B\n" +
 	"127.0.0.1 hosts.test alias.test\n" +
 	"||blocked.test^$client=10.0.0.1\n" +
 	"||tagged.test^$ctag=pc\n" +
-	"||v6.test^$dnstype=AAAA\n" +
 	"||rw.test^$dnsrewrite=1.2.3.4\n" +
 	"||rw.test^$dnsrewrite=2.3.4.5\n" +
 	"@@||rw.test^$dnsrewrite=1.2.3.4\n" +
-	"/h[o0]sts\\.test/\n"}
+	"/h[o0]sts\\.test/\n" +
+	"||v6.test^$dnstype=AAAA"} // likewise: last line, no terminator
 
 func netAll(url, src string, t rules.RequestType) Query {
 	return Query{Kind: "netall", URL: url, Src: src, Type: t}
@@ -74,15 +79,16 @@ func C14Scenarios() []Scenario {
 		{Name: "S2-different-uncached-rules-2t", Lists: both, Threads: [][]Query{{q1}, {q2}}, Warm: []Query{q1, q2}},
 		{Name: "S2-different-uncached-rules-3t", Lists: both, Threads: [][]Query{{q1}, {q2}, {q3}}, Warm: []Query{q1}},
 		{Name: "S3-lazy-regex-compile-2t", Lists: both, Threads: [][]Query{{rx}, {rx}}, Warm: []Query{q1}},
-		{Name: "S3-lazy-regex-compile-3t", Lists: both, Threads: [][]Query{{rx}, {rx}, {q1}}, Warm: []Query{q1}},
 		{Name: "S4-dns-pool-2t", Lists: both, Threads: [][]Query{{d2, d5}, {d3, d1}}, Warm: []Query{d1}},
 		{Name: "S4-dns-pool-3t", Lists: both, Threads: [][]Query{{d2, d5}, {d3, d4}, {d6, d7}}, Warm: []Query{d1, d7}},
 		{Name: "S4-dns-pool-both-tagged-2t", Lists: both, Threads: [][]Query{{d3, d5}, {d3b, d3}}, Warm: []Query{d1}},
+		{Name: "S8-last-lines-of-two-files-2t", Lists: both, Threads: [][]Query{{q2}, {d4}}, Warm: []Query{q1}},
 		{Name: "S5-engine-cosmetic-dns-3t", Lists: both, Threads: [][]Query{{eng}, {cos}, {d1}}, Warm: []Query{eng}},
 		{Name: "S7-engine-referrer-2t", Lists: both, Threads: [][]Query{{eng}, {eng2}}, Warm: []Query{eng}},
 		{Name: "S7-engine-same-referrer-2t", Lists: both, Threads: [][]Query{{eng}, {eng}}, Warm: []Query{eng}},
-		{Name: "S1-same-rule-twice-in-url-4t", Lists: both, Threads: [][]Query{{twice}, {twice}, {twice}, {twice}}, Warm: []Query{twice}, MaxBound: 1},
 		{Name: "S4-dns-pool-4t", Lists: both, Threads: [][]Query{{d2}, {d3}, {d5}, {d7}}, Warm: []Query{d1}, MaxBound: 1},
 		{Name: "S6-mixed-3t", Lists: both, Threads: [][]Query{{q3, d7}, {d1, twice}, {rx, q1}}, Warm: []Query{q1, d1}},
+		{Name: "S3-lazy-regex-compile-3t", Lists: both, Threads: [][]Query{{rx}, {rx}, {q1}}, Warm: []Query{q1}, ThoroughOnly: true},
+		{Name: "S1-same-rule-twice-in-url-4t", Lists: both, Threads: [][]Query{{twice}, {twice}, {twice}, {twice}}, Warm: []Query{twice}, MaxBound: 1, ThoroughOnly: true},
 	}
 }
